@@ -8,8 +8,6 @@ args = sys.argv[2:]
 out = []
 for k in range(0, len(args), 3):
     path, old, new = args[k:k+3]
-    old = old.encode().decode('unicode_escape') if '\\n' in old or '\\t' in old else old
-    new = new.encode().decode('unicode_escape') if '\\n' in new or '\\t' in new else new
     src = open(os.path.join('/repo', path)).read()
     if src.count(old) != 1:
         sys.exit(f"{path}: pattern occurs {src.count(old)} times: {old!r}")
